@@ -61,14 +61,17 @@ func main() {
 	must(n.Attach(b7))
 	w.Notify(b7)
 	fmt.Printf("%+v\n", w.Observe(id))
-	// reorg: drop 7, new 7' empty, 8'
-	_, err = n.Detach()
-	must(err)
-	b7b := n.MakeBlock(n.Tip(), nil, nil)
-	must(n.Attach(b7b))
-	b8b := n.MakeBlock(n.Tip(), nil, nil)
-	must(n.Attach(b8b))
-	w.Notify(b8b)
+	// deep reorg announced only by its tip: drop 7,6,5 and build 5',6',7',8'
+	for i := 0; i < 3; i++ {
+		_, err = n.Detach()
+		must(err)
+	}
+	var last *massutil.Block
+	for i := 0; i < 4; i++ {
+		last = n.MakeBlock(n.Tip(), nil, nil)
+		must(n.Attach(last))
+	}
+	w.Notify(last)
 	fmt.Printf("%+v\n", w.Observe(id))
 	w.Stop()
 	fmt.Println("total", time.Since(t0))
